@@ -769,8 +769,15 @@ func (e *Engine) exec(st *State, f *Frame, in ssa.Instruction) (action, []*State
 			n = int(h)
 		}
 		if n < 0 || n > 1<<20 {
-			f.locals[x] = Poison{"MakeSlice with unbounded symbolic capacity"}
-			break
+			// symbolic capacity without a syntactic bound: model up to max_alloc elements; larger requests are
+			// an inconclusive condition (must be unreachable), not a pass
+			n = 64
+			if e.cfg != nil && e.cfg.MaxAlloc > 0 {
+				n = e.cfg.MaxAlloc
+			}
+			tooBig := b.Not(b.Ule(cp, b.BV(64, uint64(n))))
+			e.newObl(oblPoison, st, tooBig, fmt.Sprintf("make([]T, n) with n above the modelled maximum %d", n), e.posStr(x.Pos()))
+			e.addPC(st, b.Not(tooBig))
 		}
 		e.guard(st, b.And(b.Sle(b.BV(64, 0), ln), b.Sle(ln, cp)), "makeslice: len out of range", x.Pos())
 		et := x.Type().Underlying().(*types.Slice).Elem()
